@@ -278,6 +278,84 @@ def check_unbudgeted_locks(eng, run):
     run.floor("C11.thread budgeted client methods", n, 8)
 
 
+def check_zero_is_not_none(eng, run):
+    """a zero timeout is a value of its own ('never blocks'), not an absent one: no timeout / delay / deadline parameter or attribute is
+    ever tested by truthiness (`timeout or inf`, `if not timeout:`, `x if timeout else y`) - that turns 0 into 'no timeout'"""
+    n = 0
+
+    def is_budget(e):
+        d = dotted(e) or ""
+        last = d.split(".")[-1].lower()
+        return bool(d) and any(w in last for w in ("timeout", "deadline", "delay")) and not last.startswith(("is_", "has_")) \
+            and not any(w in last for w in ("handle", "scope", "ctx", "callback", "error", "exc", "event", "task"))  # objects, not numbers
+
+    def truthy_uses(fn):
+        for x in own_nodes(fn.node):
+            if isinstance(x, ast.BoolOp):
+                for v in x.values[:-1] if isinstance(x.op, ast.Or) else x.values:
+                    if is_budget(v):
+                        yield x, v
+            tests = []
+            if isinstance(x, (ast.If, ast.While, ast.IfExp)):
+                tests.append(x.test)
+            if isinstance(x, ast.Assert):
+                continue
+            for t in tests:
+                neg = t
+                while isinstance(neg, ast.UnaryOp) and isinstance(neg.op, ast.Not):
+                    neg = neg.operand
+                if is_budget(neg):
+                    yield x, neg
+
+    for fn in eng.db.all_functions():
+        if isinstance(fn.node, ast.Lambda) or not fn.module.name.startswith(("easynetwork.clients", "easynetwork.lowlevel.api_sync", "easynetwork.lowlevel._utils", "easynetwork.lowlevel.api_async.backend._asyncio.tasks")):
+            continue
+        if not any(is_budget(ast.Name(id=a.arg, ctx=ast.Load())) for a in fn.params()) and not any(isinstance(x, ast.Attribute) and is_budget(x) for x in own_nodes(fn.node)):
+            continue
+        n += 1
+        uses = list(truthy_uses(fn))
+        for node, v in uses[:1]:
+            run.finding("C11.zero", fn, node if isinstance(node, ast.stmt) else _stmt_at(fn, node.lineno), f"`{ast.unparse(v)}` is tested by truthiness: a zero timeout is treated like an absent one "
+                        "(e.g. replaced by infinity) - a call that must not block waits for ever")
+        run.ob("C11.zero", f"{fn.module.name.split('easynetwork.')[1]}:{fn.short}:zero-timeout-not-read-as-absent", not uses)
+    run.floor("C11.zero functions handling a timeout value", n, 20)
+
+
+def check_one_clock(eng, run):
+    """deadlines are computed and compared on one clock: the asyncio backend's current_time() is the running loop's time() - the clock
+    its cancel scopes schedule with (`loop.call_at`) - and neither it nor the scope implementation reads another clock
+    (time.monotonic / time.time / perf_counter), which differs from the loop's on any loop with its own notion of time"""
+    be = eng.db.module("lowlevel.api_async.backend._asyncio.backend")
+    ct = next((f for c in be.classes.values() for f in c.methods.values() if f.name == "current_time"), None)
+    if ct is None:
+        raise AnalysisError("anchor vanished: current_time() of the asyncio backend")
+    from sa.analyses.buffers import through_local
+    rets = [r.value for r in own_nodes(ct.node) if isinstance(r, ast.Return) and r.value is not None]
+    ok = bool(rets)
+    for r in rets:
+        v = through_local(ct, r)
+        good = isinstance(v, ast.Call) and isinstance(v.func, ast.Attribute) and v.func.attr == "time"
+        if good:
+            recv = through_local(ct, v.func.value)
+            good = isinstance(recv, ast.Call) and (dotted(recv.func) or "").split(".")[-1] in ("get_running_loop", "get_event_loop") or "loop" in (dotted(v.func.value) or "")
+        ok = ok and good
+    foreign = []
+    for modname in ("lowlevel.api_async.backend._asyncio.backend", "lowlevel.api_async.backend._asyncio.tasks"):
+        m = eng.db.module(modname)
+        for f in [x for c in m.classes.values() for x in c.methods.values()] + list(m.functions.values()):
+            if isinstance(f.node, ast.Lambda):
+                continue
+            for c in own_nodes(f.node):
+                if isinstance(c, ast.Call) and (dotted(c.func) or "") in ("time.monotonic", "time.time", "time.perf_counter", "monotonic", "perf_counter", "time.monotonic_ns"):
+                    foreign.append((f, c))
+    if not ok:
+        run.finding("C11.cycle", ct, ct.node, "current_time() of the asyncio backend is not the running loop's time(): move_on_after()/timeout() compute deadlines on one clock while the cancel scopes "
+                    "compare and schedule on the loop's - the timeout fires at the wrong moment (at once, or far beyond the budget) on a loop whose clock differs")
+    for f, c in foreign[:1]:
+        run.finding("C11.cycle", f, _stmt_at(f, c.lineno), f"`{ast.unparse(c)}` reads a clock other than the event loop's in the deadline machinery")
+    run.ob("C11.cycle", f"{ct.short}:deadlines-on-the-loop-clock", ok and not foreign, foreign_clock_reads=len(foreign))
+
+
 def run(eng, run):
     from sa.anchors import verify as _verify_anchor_names
     _verify_anchor_names(eng, run)
@@ -285,6 +363,8 @@ def run(eng, run):
     run.attempt(check_budget, eng, run)
     run.attempt(check_shapes, eng, run)
     run.attempt(check_unbudgeted_locks, eng, run)
+    run.attempt(check_zero_is_not_none, eng, run)
+    run.attempt(check_one_clock, eng, run)
     # a send loop that stops making progress (an empty chunk that is never dropped) spins for ever, whatever the timeout
     from rules import c04
     from sa.report import RuleAlias
